@@ -15,6 +15,9 @@ mode) and are killed with os._exit at the k-th line event (sys.monitoring) insid
 package's and ASE's I/O functions; the surviving bytes are judged the same way against
 an uninterrupted twin run.
 The op-log model runs tell the observers both declared file modes ('a' and 'w').
+Model runs also start with a zero-length call, hand over logs that already hold something (the run's header must
+precede its first row), carry a user field that fails now and then (every row must have as many columns as the header
+announces), and include a dilute box that runs empty (frames of zero atoms are frames too).
 """
 from __future__ import annotations
 
